@@ -118,3 +118,28 @@ func VerifC18TermLegacyTruncated() {
 	vt.sgr(params)
 	zzverif.Reach("end")
 }
+
+// VerifC18LegacyAgreement: the complete legacy (semicolon) forms of the extended colours,
+// 38/48/58 ; 2 ; r ; g ; b and 38/48/58 ; 5 ; n with free values, between an ordinary
+// parameter before and after: the embedded terminal and parseSGR understand them identically
+// (same colours, and parsing resumes at the right parameter).
+func VerifC18LegacyAgreement() {
+	vt := verifModel(2, 2)
+	var params [][]int
+	if zzverif.Bool("boldBefore") {
+		params = append(params, []int{1})
+	}
+	params = append(params, []int{[]int{38, 48, 58}[zzverif.Choose("head", 3)]})
+	if zzverif.Bool("rgb") {
+		params = append(params, []int{2}, []int{int(zzverif.Byte("r"))}, []int{int(zzverif.Byte("g"))}, []int{int(zzverif.Byte("b"))})
+	} else {
+		params = append(params, []int{5}, []int{int(zzverif.Byte("n"))})
+	}
+	if zzverif.Bool("italicAfter") {
+		params = append(params, []int{3})
+	}
+	vt.sgr(params)
+	want := vaxis.VerifParseSGR(params)
+	zzverif.Assert(verifSame(vt.cursor.Style, want), "embedded-terminal-and-parseSGR-agree-on-legacy-extended-colours")
+	zzverif.Reach("end")
+}
